@@ -7,7 +7,8 @@ open LiteFSVerif LiteFSVerif.SpecLocks
 
 structure St where
   t : T := {}
-  walMode : Bool := false
+  walMode : Bool := false        -- journal mode according to the header page SQLite last committed
+  pendingMode : Option Bool := none   -- version bytes of a page 1 written inside an open rollback-journal transaction
   held : Bool := false
   nInternal : Nat := 0
 
@@ -19,10 +20,17 @@ def expect (want obs what : String) : String :=
 def check (st : St) (op obs : String) : St × String :=
   match words op with
   | ["case", _] => ({}, "ok")
-  | ["state"] =>
-    let w := words obs
-    let m := (w.find? (·.startsWith "mode=")).map fun x => x == "mode=w"
-    ({ st with walMode := m.getD st.walMode }, "ok")
+  | ["state"] => (st, "ok")
+  -- the journal mode is what SQLite committed in the header page (bytes 18, 19: 2,2 = WAL), not
+  -- what the node reports: a rollback-journal transaction writes page 1 with `dbw 0 <page>` and
+  -- commits by deleting / truncating / zeroing the journal
+  | ["dbw", "0", tok] =>
+    if obs.startsWith "ok" && tok.startsWith "53514c69746520666f726d6174203300" then
+      ({ st with pendingMode := some (((tok.drop 36).take 4).toString == "0202") }, "ok")
+    else (st, "ok")
+  | ["jrm"] | ["jtr"] | ["jw", "0", "z28"] =>
+    if obs.startsWith "ok" then ({ st with walMode := st.pendingMode.getD st.walMode, pendingMode := none }, "ok")
+    else ({ st with pendingMode := none }, "ok")
   | ["reopen"] => ({ st with t := {}, held := false }, "ok")
   | [o, owner, ls] =>
     match o with
